@@ -25,7 +25,8 @@ class Injected(OSError):
 GROUP = {"isfile": "isfile", "xmlparse": "xmlparse", "encode": "encode", "create": "create", "write": "write",
          "wclean": "wclean", "read": "read", "readlines": "read", "remove": "remove", "decode": "decode",
          "iterate": "iterate", "event": "iterate"}
-UNMODELLED = {"exists", "listdir"}          # checks of the *input* made before the protocol starts
+UNMODELLED = {"exists", "listdir", "stat"}  # look-ups of the *input* made outside the protocol steps
+SWALLOWED = {"isfile", "stat"}              # os.path.isfile / exists turn a failing stat into the answer False
 NOT_FAULTABLE = {"wclean", "remove", "event"}
 LOCAL_LOOPS = {"encode", "decode", "iterate", "event"}   # computation on data the thread owns; splitting it adds no shared-state access        # the deletion of the helper file itself (excluded by the property)
 
@@ -41,6 +42,17 @@ class Ctl:
 
     def tid(self):
         return getattr(self.local, "tid", 0)
+
+    def active(self):
+        return getattr(self.local, "active", False)
+
+    def run(self, fn):
+        """perform fn() as a call under observation (in the calling thread)"""
+        self.local.active = True
+        try:
+            return fn()
+        finally:
+            self.local.active = False
 
     def gate(self, label, path):
         t = self.tid()
@@ -76,9 +88,25 @@ class FileProxy:
             raise Injected("injected failure at write(%s)" % self._path)
         return self._f.write(data)
 
-    def readlines(self):
+    def writelines(self, lines):
+        for l in lines:
+            self.write(l)
+
+    def readlines(self, *a):
         self._ctl.check("readlines", self._path)
-        return self._f.readlines()
+        return self._f.readlines(*a)
+
+    def read(self, *a):
+        self._ctl.check("readlines", self._path)
+        return self._f.read(*a)
+
+    def readline(self, *a):
+        self._ctl.check("readlines", self._path)
+        return self._f.readline(*a)
+
+    def __iter__(self):
+        self._ctl.check("readlines", self._path)
+        return iter(self._f)
 
     def __enter__(self):
         self._f.__enter__()
@@ -89,66 +117,6 @@ class FileProxy:
 
     def __getattr__(self, n):
         return getattr(self._f, n)
-
-
-def make_open(ctl):
-    def _open(path, mode="r", *a, **k):
-        if str(path).endswith(SUFFIX):
-            ctl.check("create" if "w" in mode else "read", path)
-            return FileProxy(ctl, builtins.open(path, mode, *a, **k), path)
-        return builtins.open(path, mode, *a, **k)
-    return _open
-
-
-class PathProxy:
-    def __init__(self, ctl):
-        self._ctl = ctl
-
-    def isfile(self, p):
-        if str(p).endswith(SUFFIX):
-            self._ctl.check("isfile", p)
-        return real_os.path.isfile(p)
-
-    def exists(self, p):
-        self._ctl.check("exists", p)
-        return real_os.path.exists(p)
-
-    def __getattr__(self, n):
-        return getattr(real_os.path, n)
-
-
-class OsProxy:
-    def __init__(self, ctl, remove_label):
-        self._ctl = ctl
-        self._label = remove_label
-        self.path = PathProxy(ctl)
-
-    def remove(self, p):
-        self._ctl.gate(self._label, p)
-        return real_os.remove(p)
-
-    def listdir(self, p):
-        self._ctl.check("listdir", p)
-        return sorted(real_os.listdir(p))
-
-    def __getattr__(self, n):
-        return getattr(real_os, n)
-
-
-class ETProxy:
-    def __init__(self, ctl):
-        self._ctl = ctl
-
-    def parse(self, source, *a, **k):
-        self._ctl.check("xmlparse", source)
-        return real_ET.parse(source, *a, **k)
-
-    def iterparse(self, source, *a, **k):
-        self._ctl.check("iterate", source)
-        return IterProxy(self._ctl, real_ET.iterparse(source, *a, **k), source)
-
-    def __getattr__(self, n):
-        return getattr(real_ET, n)
 
 
 class IterProxy:
@@ -168,60 +136,126 @@ class IterProxy:
         return getattr(self._it, n)
 
 
-class JsonProxy:
-    def __init__(self, ctl):
-        self._ctl = ctl
+def caller_module(depth=2, limit=8):
+    """name of the nearest opcua_tools module on the call stack (the interception is process-wide)"""
+    import sys
+    f = sys._getframe(depth)
+    for _ in range(limit):
+        if f is None:
+            return ""
+        name = f.f_globals.get("__name__", "")
+        if name.startswith("opcua_tools"):
+            return name
+        f = f.f_back
+    return ""
 
-    def dumps(self, *a, **k):
-        self._ctl.check("encode", None)
-        return real_json.dumps(*a, **k)
 
-    def loads(self, *a, **k):
-        self._ctl.check("decode", None)
-        return real_json.loads(*a, **k)
-
-    def __getattr__(self, n):
-        return getattr(real_json, n)
+def in_scratch(p):
+    return "opcua_verif_" in p
 
 
 class Patched:
-    """context manager: the parse path sees the proxies"""
+    """context manager.  The interception is process-wide (so that it does not depend on HOW the library reaches
+    the operating system: `os.remove`, `from os import remove`, `pathlib.Path.unlink`, `open`, `io.open`, `Path.open`,
+    `json.dumps` / `json.dump`, `ET.parse` / `from lxml.etree import parse` all end in one of the wrapped functions),
+    but it only reacts inside a call started through `Ctl.run` (thread-local flag), to paths inside the harness's
+    scratch directories, and — for the JSON / XML functions — to calls that come from an opcua_tools module."""
     def __init__(self, ctl):
         self.ctl = ctl
 
     def __enter__(self):
-        import opcua_tools.json_parser.parse as pm
-        import opcua_tools.nodeset_parser as npm
-        self.saved = []
-        for mod, name, val in [
-            (npm, "os", OsProxy(self.ctl, "remove")), (npm, "open", make_open(self.ctl)), (npm, "ET", ETProxy(self.ctl)),
-            (npm, "json", JsonProxy(self.ctl)),
-            (pm, "os", OsProxy(self.ctl, "wclean")), (pm, "open", make_open(self.ctl)), (pm, "ET", ETProxy(self.ctl)),
-            (pm, "json", JsonProxy(self.ctl)),
-        ]:
-            self.saved.append((mod, name, mod.__dict__.get(name, None), name in mod.__dict__))
-            setattr(mod, name, val)
-        return self.ctl
+        import io
+        import sys
+        ctl = self.ctl
+        self.restore = []
+        o_stat, o_remove, o_unlink, o_open, o_listdir = real_os.stat, real_os.remove, real_os.unlink, builtins.open, real_os.listdir
+        o_dumps, o_loads, o_dump, o_load = real_json.dumps, real_json.loads, real_json.dump, real_json.load
+        o_parse, o_iterparse = real_ET.parse, real_ET.iterparse
+
+        def fs(path):
+            try:
+                return real_os.fspath(path) if isinstance(path, (str, real_os.PathLike)) else None
+            except TypeError:
+                return None
+
+        def w_stat(path, *a, **k):
+            p = fs(path)
+            if p is not None and ctl.active() and in_scratch(p):
+                if p.endswith(SUFFIX):
+                    ctl.check("isfile", p)
+                elif p.endswith(".xml"):
+                    ctl.check("stat", p)
+            return o_stat(path, *a, **k)
+
+        def mk_remove(orig):
+            def w_remove(path, *a, **k):
+                p = fs(path)
+                if p is not None and ctl.active() and in_scratch(p) and p.endswith(SUFFIX):
+                    ctl.gate("wclean" if caller_module().endswith("json_parser.parse") else "remove", p)
+                return orig(path, *a, **k)
+            return w_remove
+
+        def w_open(path, mode="r", *a, **k):
+            p = fs(path)
+            if p is not None and ctl.active() and in_scratch(p) and p.endswith(SUFFIX):
+                ctl.check("create" if any(c in mode for c in "wax+") else "read", p)
+                return FileProxy(ctl, o_open(path, mode, *a, **k), p)
+            return o_open(path, mode, *a, **k)
+
+        def w_listdir(path=".", *a, **k):
+            p = fs(path)
+            if p is not None and ctl.active() and in_scratch(p):
+                ctl.check("listdir", p)
+                return sorted(o_listdir(path, *a, **k))
+            return o_listdir(path, *a, **k)
+
+        def mk_json(orig, label):
+            def w(*a, **k):
+                if ctl.active() and caller_module().startswith("opcua_tools"):
+                    ctl.check(label, None)
+                return orig(*a, **k)
+            return w
+
+        def w_parse(source, *a, **k):
+            if ctl.active() and caller_module().startswith("opcua_tools") and fs(source) is not None and in_scratch(fs(source)):
+                m = caller_module()
+                # the XML read of the pre-processing is a protocol step; other readers of the input (namespace helpers) are not
+                ctl.check("xmlparse" if m.endswith("json_parser.parse") else "exists", source)
+            return o_parse(source, *a, **k)
+
+        def w_iterparse(source, *a, **k):
+            if ctl.active() and caller_module().startswith("opcua_tools") and fs(source) is not None and in_scratch(fs(source)):
+                ctl.check("iterate", source)
+                return IterProxy(ctl, o_iterparse(source, *a, **k), source)
+            return o_iterparse(source, *a, **k)
+
+        table = [(real_os, "stat", o_stat, w_stat), (real_os, "remove", o_remove, mk_remove(o_remove)), (real_os, "unlink", o_unlink, mk_remove(o_unlink)),
+                 (real_os, "listdir", o_listdir, w_listdir), (builtins, "open", o_open, w_open), (io, "open", io.open, w_open),
+                 (real_json, "dumps", o_dumps, mk_json(o_dumps, "encode")), (real_json, "dump", o_dump, mk_json(o_dump, "encode")),
+                 (real_json, "loads", o_loads, mk_json(o_loads, "decode")), (real_json, "load", o_load, mk_json(o_load, "decode")),
+                 (real_ET, "parse", o_parse, w_parse), (real_ET, "iterparse", o_iterparse, w_iterparse)]
+        for obj, name, orig, new in table:
+            self.restore.append((obj, name, getattr(obj, name)))
+            setattr(obj, name, new)
+        # names bound by `from x import y` in the library's modules
+        originals = {id(orig): new for _, _, orig, new in table}
+        for mname, mod in list(sys.modules.items()):
+            if mod is not None and mname.startswith("opcua_tools"):
+                for name, val in list(getattr(mod, "__dict__", {}).items()):
+                    if callable(val) and id(val) in originals and not name.startswith("__"):
+                        self.restore.append((mod, name, val))
+                        setattr(mod, name, originals[id(val)])
+        return ctl
 
     def __exit__(self, *a):
-        for mod, name, old, had in self.saved:
-            if had:
-                setattr(mod, name, old)
-            else:
-                delattr(mod, name)
+        for obj, name, old in reversed(self.restore):
+            setattr(obj, name, old)
         return False
 
 
 def hooks_present():
-    """the names the proxies replace must exist and be used by the parse path — otherwise the interception is blind"""
-    import opcua_tools.json_parser.parse as pm
-    import opcua_tools.nodeset_parser as npm
-    missing = []
-    for mod, names in [(npm, ["os", "ET", "json"]), (pm, ["ET", "json"])]:
-        for n in names:
-            if n not in mod.__dict__:
-                missing.append("%s.%s" % (mod.__name__, n))
-    return missing
+    """kept for the checks' preamble: the interception no longer depends on names in the library's modules"""
+    return []
 
 
 # -------------------------------------------------------------------------------------------------
@@ -251,7 +285,7 @@ def doc_text(c, flags=()):
 def outcome_of(fn, ctl, tid=0):
     """run fn(); canonical outcome: {'ok': {'body': c, 'header': h}} or {'err': kind}"""
     try:
-        res = fn()
+        res = ctl.run(fn)
     except Injected:
         return {"err": "fault"}, None
     except real_ET.XMLSyntaxError:
@@ -361,7 +395,7 @@ class Scheduler:
         def worker(t):
             ctl.local.tid = t
             try:
-                results[t] = ("ok", targets[t]())
+                results[t] = ("ok", ctl.run(targets[t]))
             except BaseException as e:  # noqa: BLE001
                 results[t] = ("exc", e)
             finally:
